@@ -160,6 +160,9 @@ def is_filter_empty(filter_like: Filter) -> bool:
   if isinstance(filter_like, DenyList):
     # if any arbitrary collection is in the denylist it matches everything so
     # the filter is empty. This is checked with a stub.
+    if isinstance(filter_like.deny, DenyList):
+      # a nested DenyList denies everything only if its own filter is empty.
+      return is_filter_empty(filter_like.deny.deny)
     return in_filter(filter_like.deny, '__flax_internal_stub__')
   raise errors.InvalidFilterError(filter_like)
 
